@@ -433,7 +433,7 @@ func (v *PacketDslVisitorImpl) VisitInerObjectField(ctx *gen.InerObjectFieldCont
 	name := decl.IDENTIFIER().GetText()
 	var subFields []*model.Field
 	var declared = make(map[*model.Field]gen.IFieldDefinitionContext)
-	var names = make(map[string]bool)
+	var names = make(map[string]*model.Field)
 	// Iterate all sub-field definitions inside the nested object
 	for _, fctx := range decl.AllFieldDefinition() {
 		fld := v.VisitFieldDefinition(fctx)
@@ -441,7 +441,7 @@ func (v *PacketDslVisitorImpl) VisitInerObjectField(ctx *gen.InerObjectFieldCont
 			continue
 		}
 		f := fld.(*model.Field)
-		if names[f.Name] {
+		if _, exists := names[f.Name]; exists {
 			v.BinModel.AddSyntaxError(&model.SyntaxError{
 				Line:            fctx.GetStart().GetLine(),
 				Column:          fctx.GetStart().GetTokenSource().GetCharPositionInLine(),
@@ -451,17 +451,21 @@ func (v *PacketDslVisitorImpl) VisitInerObjectField(ctx *gen.InerObjectFieldCont
 		}
 		subFields = append(subFields, f)
 		declared[f] = fctx
-		names[f.Name] = true
+		names[f.Name] = f
 	}
 	// a match field selects on a field of the same object
 	for _, f := range subFields {
-		if mf, ok := f.Attr.(*model.MatchFieldAttribute); ok && !names[mf.MatchKeyField.Name] {
-			v.BinModel.AddSyntaxError(&model.SyntaxError{
-				Line:            declared[f].GetStart().GetLine(),
-				Column:          declared[f].GetStart().GetTokenSource().GetCharPositionInLine(),
-				Msg:             "Unknown match key field " + mf.MatchKeyField.Name + " for field " + f.Name,
-				OffendingSymbol: nil,
-			})
+		if mf, ok := f.Attr.(*model.MatchFieldAttribute); ok {
+			if key, ok := names[mf.MatchKeyField.Name]; ok {
+				mf.MatchKeyField = key
+			} else {
+				v.BinModel.AddSyntaxError(&model.SyntaxError{
+					Line:            declared[f].GetStart().GetLine(),
+					Column:          declared[f].GetStart().GetTokenSource().GetCharPositionInLine(),
+					Msg:             "Unknown match key field " + mf.MatchKeyField.Name + " for field " + f.Name,
+					OffendingSymbol: nil,
+				})
+			}
 		}
 	}
 	// Construct nested Packet model
